@@ -4,11 +4,19 @@ Real code: backends.xml.generator.generate (deepcopy + flatten + XmlGenerator). 
 back (lxml) into pymoca AST nodes - <apply builtin=op> / <operator name=op> -> Expression, <real> ->
 Primary, <local> -> ComponentRef - and compared with a fresh flatten of the same text:
   structure  one <component> per flat variable (name, builtin type, variability, literal start/value,
-             fixed) and one <equal> per flat equation whose tree matches the flat equation operator for
-             operator and operand for operand, in order;
-  meaning    z3 proves, for all values of all variables, that each XML equation's two sides equal the flat
-             equation's two sides under the reference semantics (ast2z3) - so a literal printed with lost
-             digits or a collapsed operand shows up as `sat` even where the shapes agree."""
+             fixed) and one element per flat equation - <equal> for an equation, <when><cond/><then/></when>
+             for a when-equation, <apply> for an equation-level call (reinit, assert) - whose tree matches the
+             flat equation operator for operator and operand for operand, in order; nothing for the flat
+             model's initial equations;
+  meaning    z3 proves, for all values of all variables, that each XML expression (both sides of every
+             equation, every when-condition, every call argument) equals the flat one under the reference
+             semantics (ast2z3) - so a literal printed with lost digits or a collapsed operand shows up as
+             `sat` even where the shapes agree.
+
+Families: expression trees (arithmetic, literals, relational/logical, user and builtin calls of 1-3 arguments),
+variable declarations (type x variability x kind of start x kind of value x fixed), and whole models
+(equation/initial-equation section layouts x when-equation forms x the way the model is instantiated)."""
+import itertools
 import json
 import sys
 import traceback
@@ -18,13 +26,16 @@ from lxml import etree
 from props import c24
 from vk import exprgen as E
 from vk.report import Collector, EncodingGap, Report, run_parallel, std_args
-from vk.smt import equiv, pipeline
+from vk.smt import equiv, ops, pipeline
 from vk.smt.ast2z3 import Ref
 
 PROP = "C25"
 BATCH = 20
+SYM_BATCH = 24
+STRUCT_BATCH = 8
 
 
+# ---- expression families ----------------------------------------------------------------------------------
 def trees(tier):
     out = list(c24.arith_trees(tier)) + list(c24.literal_trees(tier))
     # repeated equal literals / operands as siblings, n-ary calls, nested unary operators
@@ -36,13 +47,60 @@ def trees(tier):
     return out
 
 
-def expr_model(trs):
-    decl = "  Real a, b, c, d, x;\n" + "".join(f"  Real y{k};\n" for k in range(len(trs)))
+# user functions of one, two and three arguments (the flat tree then holds several classes, M last)
+FUNCS = ("function f1\n  input Real u;\n  output Real y;\nalgorithm\n  y := 2 * u + 1;\nend f1;\n"
+         "function f2\n  input Real u1;\n  input Real u2;\n  output Real y;\nalgorithm\n  y := u1 - 3 * u2;\nend f2;\n"
+         "function f3\n  input Real u1;\n  input Real u2;\n  input Real u3;\n  output Real y;\nalgorithm\n  y := u1 + u2 * u3;\nend f3;\n")
+
+
+def call_trees(tier):
+    """Calls of user functions and event/time operators: 1, 2 and 3 operands, equal sibling operands (references, literals,
+    whole sub-trees), calls nested in calls and in operators."""
+    a, b, c = E.V("a"), E.V("b"), E.V("c")
+    out = [E.Call("f1", a), E.Call("f1", E.Un("-", a)), E.Call("f1", E.Call("f1", a)), E.Un("-", E.Call("f1", a)),
+           E.Call("f2", a, b), E.Call("f2", b, a), E.Call("f2", a, a), E.Call("f2", E.N("2"), E.N("2")), E.Call("f2", E.N("1"), E.N("1.0")),
+           E.Call("f3", a, E.N("2"), b), E.Call("f3", E.N("1"), E.N("1"), E.N("1")), E.Call("f3", a, a, a), E.Call("f3", a, b, a),
+           E.Call("f3", E.Call("f2", a, b), E.Call("f2", a, b), E.N("0.5")), E.Bn("+", E.Call("f2", a, b), E.Call("f2", a, b)),
+           E.Bn("*", E.Call("f1", a), E.Call("f3", a, b, c)), E.Call("max", E.Call("f2", a, b), E.Call("f2", a, b)),
+           E.Call("smooth", E.N("1"), a), E.Call("noEvent", a), E.Call("noEvent", E.Bn("+", a, E.N("1"))), E.Call("delay", a, E.N("1")),
+           E.Call("delay", a, E.N("0.5"), E.N("0.5")), E.Call("pre", E.V("dn")), E.Bn("+", E.Call("pre", E.V("dn")), E.N("1")),
+           E.Bn("-", E.Call("pre", E.V("dn")), E.Call("pre", E.V("dn"))), E.Call("min", E.Call("der", E.V("x")), E.Call("der", E.V("x")))]
+    if tier == "thorough":
+        for f, g in itertools.product(("f1", "noEvent", "abs", "sin"), repeat=2):
+            out.append(E.Call(f, E.Call(g, a)))
+        for l, r in itertools.product((a, E.N("2"), E.Call("f1", a), E.Un("-", a)), repeat=2):
+            out += [E.Call("f2", l, r), E.Call("f3", l, r, l)]
+    return out
+
+
+def bool_trees(tier):
+    """Relations and logical operators (Boolean left-hand sides): every relational operator (the XML attribute needs
+    escaping for < > <>), not / and / or in both nestings, Boolean literals, equal siblings, pre / edge."""
+    a, b, c, d, p, q = E.V("a"), E.V("b"), E.V("c"), E.V("d"), E.V("bp"), E.V("bq")
+    out = [E.Bool(True), E.Bool(False), p, E.Not(p), E.Not(E.Not(p)), E.And(p, q), E.Or(p, q), E.And(p, p), E.Or(E.Bool(True), E.Bool(True)),
+           E.And(E.Bool(True), E.Bool(False)), E.And(E.Bool(True), p), E.Or(p, E.Bool(False)), E.Call("pre", p), E.Call("edge", p),
+           E.Or(E.Call("pre", p), E.And(E.Call("edge", q), E.Rel("<>", a, E.N("1")))), E.And(E.Call("pre", p), E.Call("pre", p))]
+    for op in E.REL:
+        out += [E.Rel(op, a, b), E.Rel(op, b, a), E.Rel(op, E.Bn("+", a, E.N("1")), E.Bn("*", E.N("2"), b)), E.Not(E.Rel(op, a, b)),
+                E.Rel(op, a, a), E.Rel(op, E.N("2"), E.N("2")), E.Rel(op, E.Un("-", a), E.N("0.5"))]
+    r1, r2, r3 = E.Rel("<", a, b), E.Rel(">=", c, d), E.Rel("==", a, d)
+    for f, g in itertools.product((E.And, E.Or), repeat=2):
+        out += [f(g(r1, r2), r3), f(r1, g(r2, r3)), f(E.Not(r1), g(p, r3)), E.Not(f(r1, g(r2, p)))]
+    if tier == "thorough":
+        for o1, o2 in itertools.product(E.REL, repeat=2):
+            out += [E.And(E.Rel(o1, a, b), E.Rel(o2, c, d)), E.Or(E.Rel(o1, a, E.N("1")), E.Not(E.Rel(o2, E.N("1"), a)))]
+    return out
+
+
+def expr_model(trs, boolean=False):
+    txt = "".join(E.pr(t) for t in trs)
+    funcs = FUNCS if any(f + "(" in txt for f in ("f1", "f2", "f3")) else ""
+    decl = "  Real a, b, c, d, x;\n  discrete Real dn;\n  Boolean bp, bq;\n" + "".join(f"  {'Boolean' if boolean else 'Real'} y{k};\n" for k in range(len(trs)))
     eqs = "".join(f"  y{k} = {E.pr(t)};\n" for k, t in enumerate(trs))
-    return "model M\n" + decl + "equation\n" + eqs + "end M;\n"
+    return funcs + "model M\n" + decl + "equation\n" + eqs + "end M;\n"
 
 
-# variable families: (declaration, note)
+# ---- variable families ------------------------------------------------------------------------------------
 def symbol_models(tier):
     types = [("Real", "1.5", "2.25"), ("Integer", "3", "4"), ("Boolean", "true", "false")]
     out = []
@@ -67,12 +125,186 @@ def symbol_models(tier):
     return out
 
 
-def sym_model(decls):
+# What a start attribute / a declaration value can be: absent, a literal, a negative literal (parsed as a unary minus:
+# still a literal for the backend), or an expression (a reference, an operator, a negated reference, a double negation):
+# only literals are exported, an expression must leave NO item behind - whatever the other attribute is.
+ATTR_KINDS = {
+    "Real": [("none", None), ("lit", "1.5"), ("neg", "-2.5"), ("ref", "p"), ("expr", "2 * p"), ("negref", "-p")],
+    "Integer": [("none", None), ("lit", "3"), ("neg", "-4"), ("ref", "ip"), ("expr", "ip + 1")],
+    "Boolean": [("none", None), ("lit", "true"), ("ref", "bp"), ("expr", "not bp")],
+    "String": [("none", None), ("lit", '"abc"'), ("ref", "sp")],
+}
+ATTR_KINDS_MORE = {
+    "Real": [("dneg", "-(-2.5)"), ("negexpr", "-(2 * p)"), ("sum", "p + 0.5"), ("longlit", "0.1234567891"), ("call", "sin(p)")],
+    "Integer": [("dneg", "-(-4)"), ("negref", "-ip")],
+    "Boolean": [("lit0", "false"), ("and", "bp and true")],
+    "String": [],
+}
+SYM_HEADER = '  parameter Real p = 2;\n  parameter Integer ip = 2;\n  parameter Boolean bp = true;\n  parameter String sp = "s";\n'
+
+
+def symbol_cross(tier):
+    """type x variability x kind(start) x kind(value), with fixed (absent / true / false), the order of the modifiers and
+    unrelated literal attributes (min, max, nominal: never exported) cycling through the combinations."""
+    out = []
+    thorough = tier == "thorough"
+    for ty, kinds in ATTR_KINDS.items():
+        if thorough:
+            kinds = kinds + ATTR_KINDS_MORE[ty]
+        if ty == "Real" or thorough:
+            vars_ = ["", "parameter", "constant", "discrete"]
+        else:
+            vars_ = {"Integer": ["parameter", ""], "Boolean": ["constant", "discrete"], "String": ["parameter"]}[ty]
+        for vi, var in enumerate(vars_):
+            for (i, (sk, sv)), (j, (vk, vv)) in itertools.product(enumerate(kinds), enumerate(kinds)):
+                mods = [f"start = {sv}"] if sv is not None else []
+                fx = (None, "true", "false")[(i + 2 * j + vi) % 3]
+                if fx:
+                    mods.append(f"fixed = {fx}")
+                if (i + j) % 2:
+                    mods.reverse()
+                if ty in ("Real", "Integer") and (i + j + vi) % 4 == 1:
+                    mods.insert(len(mods) // 2, "min = 0, max = 10" if ty == "Integer" else "min = 0.5, nominal = 7, max = 10")
+                m = ("(" + ", ".join(mods) + ")") if mods else ""
+                val = f" = {vv}" if vv is not None else ""
+                out.append((f"sym[{ty},{var or 'continuous'},start={sk},value={vk}]", f"{var + ' ' if var else ''}{ty} s{m}{val};"))
+    return out
+
+
+def sym_model(decls, header=""):
     body = "".join(f"  {d.replace(' s', f' s{k}', 1)}\n" for k, (_, d) in enumerate(decls))
-    return "model M\n" + body + "  Real z;\nequation\n  z = 1;\nend M;\n"
+    return "model M\n" + header + body + "  Real z;\nequation\n  z = 1;\nend M;\n"
+
+
+# ---- whole-model family -----------------------------------------------------------------------------------
+BALL_DECL = ["parameter Real g = 9.81;", "Real h(start = 1), v;", "discrete Real n(start = 0), m;", "Boolean b;", "Real e = h * g;"]
+BALL_EQS = ["der(h) = v;", "der(v) = -g;", "b = h < 0;"]
+
+
+def _when(cond, body, elsewhen=()):
+    s = f"when {cond} then\n" + "".join(f"    {l}\n" for l in body)
+    for c2, b2 in elsewhen:
+        s += f"  elsewhen {c2} then\n" + "".join(f"    {l}\n" for l in b2)
+    return s + "  end when;"
+
+
+COUNT = "n = pre(n) + 1;"
+BOUNCE = "reinit(v, -0.8 * v);"
+# name -> function(ordinary equations) -> equation-section items in order
+WHEN_FORMS = {
+    "none": lambda e: e,
+    "eq": lambda e: e + [_when("h < 0", [COUNT])],
+    "reinit": lambda e: e + [_when("h < 0", [BOUNCE])],
+    "eq+reinit": lambda e: e + [_when("h < 0", [COUNT, BOUNCE])],
+    "reinit+eq": lambda e: e + [_when("h < 0", [BOUNCE, COUNT])],
+    "body4": lambda e: e + [_when("h < 0", [COUNT, "m = pre(m) + h;", "reinit(v, -v);", "reinit(h, 0);"])],
+    "two": lambda e: e + [_when("h < 0", [COUNT, BOUNCE]), _when("time > 2", ["m = pre(m) + h * 0.5;"])],
+    "two-same": lambda e: e + [_when("h < 0", [COUNT]), _when("h < 0", ["m = pre(n) + 1;"])],
+    "mid": lambda e: e[:1] + [_when("h < 0", [COUNT, BOUNCE])] + e[1:],
+    "first": lambda e: [_when("h < 0", [COUNT])] + e,
+    "cond-and": lambda e: e + [_when("h < 0 and v < 0", [COUNT, BOUNCE])],
+    "cond-var": lambda e: e + [_when("b", [COUNT])],
+    "cond-not": lambda e: e + [_when("not h >= 0", [COUNT])],
+    "cond-sample": lambda e: e + [_when("sample(0, 0.5)", [COUNT])],
+    "cond-pre": lambda e: e + [_when("pre(n) < 3 and b", [COUNT])],
+    "assert": lambda e: e[:2] + ['assert(h > -1, "fell through");'] + e[2:] + [_when("h < 0", [COUNT])],
+    "assert-only": lambda e: e + ['assert(h > -1, "fell through");', "assert(v < 100, \"fast\");"],
+}
+WHEN_QUICK_SKIP = ("two-same", "cond-not", "cond-pre", "assert-only")
+INIT1, INIT2 = ["h = 1;"], ["h = 1;", "v = 2 * g;"]
+# name -> function(equation-section items) -> list of (section keyword, items)
+SECTION_LAYOUTS = {
+    "no-initial": lambda e: [("equation", e)],
+    "initial-first-1": lambda e: [("initial equation", INIT1), ("equation", e)],
+    "initial-first-2": lambda e: [("initial equation", INIT2), ("equation", e)],
+    "initial-last-2": lambda e: [("equation", e), ("initial equation", INIT2)],
+    "initial-around": lambda e: [("initial equation", INIT1), ("equation", e), ("initial equation", ["v = 2 * g;"])],
+    "initial-between": lambda e: [("equation", e[:1]), ("initial equation", INIT2), ("equation", e[1:])],
+    "initial-der": lambda e: [("initial equation", ["der(h) = 0;", "n = 0;", "v + h = g * 0.5;"]), ("equation", e)],
+    "initial-dup": lambda e: [("initial equation", ["der(h) = v;", "b = h < 0;"]), ("equation", e)],
+}
+EMBEDS = ("top", "sub", "sub2", "extends", "pkg", "nested")
+
+
+def _class(name, decl, sections, kind="model"):
+    s = f"{kind} {name}\n" + "".join(f"  {d}\n" for d in decl)
+    for kw, items in sections:
+        s += kw + "\n" + "".join(f"  {i}\n" for i in items)
+    return s + f"end {name};\n"
+
+
+def struct_text(layout, form, embed):
+    sections = SECTION_LAYOUTS[layout](WHEN_FORMS[form](list(BALL_EQS)))
+    if embed == "top":
+        return _class("M", BALL_DECL, sections), "M"
+    if embed == "pkg":
+        return "package P\n" + _class("M", BALL_DECL, sections) + "end P;\n", "P.M"
+    ball = _class("Ball", BALL_DECL, sections)
+    if embed == "extends":
+        return ball + _class("M", ["extends Ball;", "Real s = h + 1;"], [("initial equation", ["s = 0;"])] if "initial" in layout else []), "M"
+    if embed == "sub":
+        return ball + _class("M", ["Ball b1;", "Real s;"], [("equation", ["s = b1.h + b1.e;"])]), "M"
+    if embed == "nested":
+        return (ball + _class("Box", ["Ball b1(h(start = 3));", "Real s;"], [("initial equation", ["s = 1;"]), ("equation", ["der(s) = b1.v;"])])
+                + _class("M", ["Box o, o2(b1(g = 1.5));", "Real t = o.s - o2.b1.h;"], [])), "M"
+    return ball + _class("M", ["Ball b1, b2(g = 3, h(start = 2.5));", "Real s(start = 0.25);"],
+                         [("initial equation", ["s = b2.h;"]), ("equation", ["der(s) = b1.h + b2.h;"])]), "M"
+
+
+ELSEWHEN = [("elsewhen", _when("h < 0", [COUNT], [("h > 2", ["n = 0;"])])),
+            ("elsewhen", _when("h < 0", [COUNT, BOUNCE], [("h > 2", ["n = 0;"]), ("time > 5", ["n = 1;"])]))]
+
+
+# connectors (flow variables, connection equations generated by flatten), input / output / final / inner prefixes (none of them is a
+# variability), a user function next to a when-equation and an initial equation
+MISC_MODELS = [
+    ("circuit", "connector C\n  Real e;\n  flow Real f;\nend C;\n" + _class("R", ["C p, n;", "parameter Real r(start = 0.5) = 10;"], [("equation", ["p.e - n.e = r * p.f;", "p.f + n.f = 0;"])])
+     + _class("M", ["R r1, r2(r = 2 * r1.r), r3;", "discrete Real k(start = 0);"],
+              [("initial equation", ["r1.p.e = 0;"]), ("equation", ["connect(r1.n, r2.p);", "connect(r2.n, r3.p);", "connect(r3.n, r1.p);", "r1.p.e = sin(time);", _when("r1.p.f > 1", ["k = pre(k) + 1;"])])])),
+    ("prefixes", _class("M", ["input Real u(start = 1);", "output Real y;", "input Boolean ub;", "output Integer yi(start = 2);", "final parameter Real fp = 1.5;", "inner Real w(start = -1);",
+                              "discrete output Real dy(start = 0);", "parameter input Real pu = 2.5;", "constant Integer ci = -2;", "final constant Boolean cb = true;", "discrete Integer di(start = 1, fixed = true);"],
+                        [("initial equation", ["w = 1;"]), ("equation", ["y = u * fp + pu;", "yi = ci;", "der(w) = -u;", _when("ub", ["dy = pre(dy) + w;", "di = pre(di) + ci;"])])])),
+    ("function+when", FUNCS + _class("M", ["Real x(start = 1), z;", "discrete Real c;"], [("initial equation", ["z = f2(x, 1);"]),
+                                                                                       ("equation", ["der(x) = f1(x);", "z = f3(x, x, 2);", _when("f2(x, z) > f2(x, z)", ["c = f1(pre(c));", "reinit(x, f3(1, 1, x));"])])])),
+    ("declaration-equations-only", _class("M", ["parameter Real k = 2;", "Real x = k * time;", "Real y(start = 1) = -x;", "Boolean b = x > y;", "Integer i = 3;", "discrete Real d = 4.5;"], [("initial equation", ["x = 0;"])])),
+]
+
+
+def struct_models(tier):
+    out = []
+    for (i, layout), (j, form), (k, embed) in itertools.product(enumerate(SECTION_LAYOUTS), enumerate(WHEN_FORMS), enumerate(EMBEDS)):
+        if tier != "thorough":
+            # quick: every layout x every common form at top level; the other instantiations on a diagonal
+            if form in WHEN_QUICK_SKIP or (embed != "top" and (i + j + k) % 2):
+                continue
+        text, cls = struct_text(layout, form, embed)
+        out.append((f"struct[{layout},when={form},{embed}]", text, cls, {}))
+    for k, (name, w) in enumerate(ELSEWHEN):
+        for layout in ("no-initial", "initial-first-2"):
+            # the when-equation is the 4th equation of the class
+            out.append(("struct[elsewhen]", _class("M", BALL_DECL, SECTION_LAYOUTS[layout](BALL_EQS + [w])), "M", {3: "elsewhen"}))
+    out += [(f"struct[{cid}]", text, "M", {}) for cid, text in MISC_MODELS]
+    # modifications that turn a literal value into an expression (and back) on the way down the hierarchy
+    sub = _class("A", ["parameter Real k(start = 2) = 3;", "parameter Real q(start = 1) = 2 * k;", "Real x(start = k);"], [("initial equation", ["x = k;"]), ("equation", ["der(x) = -k * x + q;"])])
+    for k, mod in enumerate(["", "(k = 5)", "(k = 2 * r)", "(q = 4)", "(q(start = r) = 4)", "(k(start = -1) = r, q = -6.5)", "(x(start = 0.5), q = k + r)"]):
+        out.append((f"struct[modified-submodel,{mod or 'unmodified'}]", sub + _class("M", ["parameter Real r = 1.25;", f"A a{mod};", "A a0;"], [("equation", [])]), "M", {}))
+    return out
 
 
 # ---------------------------------------------------------------------------------------------------------
+# operators without a value-level meaning in the reference semantics: uninterpreted functions of their operands
+OPAQUE = {"pre", "edge", "change", "sample", "noEvent", "smooth", "delay", "initial", "terminal"}
+
+
+class XRef(Ref):
+    def ev_expr(self, e):
+        from pymoca import ast
+        op = e.operator.name if isinstance(e.operator, ast.ComponentRef) else e.operator
+        if op in OPAQUE:
+            return ops.uf("op_" + op, len(e.operands))(*[self.ev(o) for o in e.operands])
+        return super().ev_expr(e)
+
+
 def xml_to_ast(el):
     """Rebuild pymoca AST nodes from the generator's XML vocabulary."""
     from pymoca import ast
@@ -84,14 +316,18 @@ def xml_to_ast(el):
         try:
             return ast.Primary(value=int(txt))
         except ValueError:
+            pass
+        try:
             return ast.Primary(value=float(txt))
+        except ValueError:
+            return ast.Primary(value=txt)  # a string literal
     if tag == "local":
         return ast.ComponentRef(name=el.get("name"))
     if tag == "apply":
         return ast.Expression(operator=el.get("builtin"), operands=[xml_to_ast(c) for c in el])
     if tag == "operator":
         return ast.Expression(operator=el.get("name"), operands=[xml_to_ast(c) for c in el])
-    raise EncodingGap("xml element " + tag)
+    raise EncodingGap("xml element " + str(tag))
 
 
 def shape(node):
@@ -99,7 +335,9 @@ def shape(node):
     from pymoca import ast
     if isinstance(node, ast.Primary):
         v = node.value
-        return ("lit", float(v) if isinstance(v, (int, float)) and not isinstance(v, bool) else v)
+        if isinstance(v, bool):
+            return ("lit", "Boolean", v)
+        return ("lit", float(v) if isinstance(v, (int, float)) else v)
     if isinstance(node, ast.ComponentRef):
         return ("ref", node.name)
     if isinstance(node, ast.Symbol):
@@ -110,140 +348,270 @@ def shape(node):
     raise EncodingGap("flat node " + type(node).__name__)
 
 
-def check_text(col, case, text, per=None):
+def literal_of(v):
+    """The literal a flat start/value attribute holds, or None (absent, or an expression)."""
+    from pymoca import ast
+    if isinstance(v, ast.Primary):
+        return v.value
+    if isinstance(v, ast.Expression) and v.operator == "-" and len(v.operands) == 1 and isinstance(v.operands[0], ast.Primary) \
+            and isinstance(v.operands[0].value, (int, float)) and not isinstance(v.operands[0].value, bool):
+        return -v.operands[0].value  # a negative literal is parsed as a unary minus expression
+    return None
+
+
+def same_literal(got, lit):
+    """<real value=...> element against a flat literal: same kind (Boolean / number / string) and same value."""
+    if got.tag != "real":
+        return False
+    txt = got.get("value")
+    if isinstance(lit, str):
+        return txt == lit
+    if isinstance(lit, bool) or txt in ("True", "False"):
+        return isinstance(lit, bool) and txt == str(lit)
+    try:
+        return float(txt) == float(lit)
+    except (TypeError, ValueError):
+        return False
+
+
+def check_text(col, case, text, per=None, cls="M"):
     from pymoca import ast, parser
     from pymoca.backends.xml import generator as xg
     per = per or {}
+    rp = {"model_text": text, "class": cls}
     try:
-        xml = xg.generate(parser.parse(text, bypass_cache=True), "M")
+        tree0 = parser.parse(text, bypass_cache=True)
+        xml = xg.generate(tree0, cls)
     except Exception as e:
-        col.violation(case + ":raises:" + type(e).__name__, f"xml generate() raises {type(e).__name__}: {str(e)[:120]}", {"model_text": text})
+        col.violation(case + ":raises:" + type(e).__name__, f"xml generate() raises {type(e).__name__}: {str(e)[:120]}", rp)
         return
     try:
         root = etree.fromstring(xml.encode())
     except Exception as e:
-        col.violation(case + ":not-well-formed", f"output is not well-formed XML: {e}", {"model_text": text, "xml": xml[:2000]})
+        col.violation(case + ":not-well-formed", f"output is not well-formed XML: {e}", dict(rp, xml=xml[:2000]))
         return
-    flat = pipeline.flat_reference(text, "M")
-    fc = flat.classes["M"]
-    cls = root.find(".//class")
-    comps = cls.findall("component")
+    # the same parsed tree generates the same text again (generate() works on a copy)
+    try:
+        again = xg.generate(tree0, cls)
+    except Exception as e:
+        again = f"{type(e).__name__}: {e}"
+    if again != xml:
+        col.violation(case + ":second-call", "a second generate() call on the same parsed tree returns a different text", dict(rp, second=again[:2000]))
+    flat = pipeline.flat_reference(text, cls)
+    fc = flat.classes[cls]
+    cdefs = [c for c in root.iter("classDefinition") if c.get("name") == cls]
+    if len(cdefs) != 1 or cdefs[0].find("class") is None:
+        col.violation(case + ":class", f"{len(cdefs)} classDefinition elements named {cls}", dict(rp, xml=xml[:3000]))
+        return
+    klass = cdefs[0].find("class")
+    comps = klass.findall("component")
     names = [c.get("name") for c in comps]
     if names != list(fc.symbols.keys()):
-        col.violation(case + ":components", f"component elements {names[:8]} differ from the flat variables {list(fc.symbols.keys())[:8]}", {"model_text": text, "xml": xml[:3000]})
+        col.violation(case + ":components", f"component elements {names[:8]} differ from the flat variables {list(fc.symbols.keys())[:8]}", dict(rp, xml=xml[:3000]))
         return
     for c, (n, s) in zip(comps, fc.symbols.items()):
         cid = per.get(n, n)
-        b = c.find("builtin")
-        if b is None or b.get("name") != s.type.name:
-            col.violation(f"{case}:{cid}:type", f"component {n}: builtin type {None if b is None else b.get('name')}, flat type {s.type.name}", {"model_text": text})
+        b = c.findall("builtin")
+        if len(b) != 1 or b[0].get("name") != s.type.name:
+            col.violation(f"{case}:{cid}:type", f"component {n}: builtin type {[x.get('name') for x in b]}, flat type {s.type.name}", rp)
         want_var = next((v for v in ("discrete", "parameter", "constant") if v in s.prefixes), None)
         if c.get("variability") != want_var:
-            col.violation(f"{case}:{cid}:variability", f"component {n}: variability {c.get('variability')}, flat prefixes {s.prefixes}", {"model_text": text})
+            col.violation(f"{case}:{cid}:variability", f"component {n}: variability {c.get('variability')}, flat prefixes {s.prefixes}", rp)
         items = {}
-        mod = c.find("modifier")
-        for it in (mod.findall("item") if mod is not None else []):
-            items[it.get("name")] = it[0]
+        for mod in c.findall("modifier"):
+            for it in mod.findall("item"):
+                if it.get("name") in items or len(it) != 1:
+                    col.violation(f"{case}:{cid}:{it.get('name')}", f"component {n}: item {it.get('name')} occurs twice or has {len(it)} children", rp)
+                    continue
+                items[it.get("name")] = it[0]
         for attr in ("start", "value"):
-            v = getattr(s, attr)
-            lit = v.value if isinstance(v, ast.Primary) else None
-            if isinstance(v, ast.Expression) and v.operator == "-" and len(v.operands) == 1 and isinstance(v.operands[0], ast.Primary):
-                lit = -v.operands[0].value  # a negative literal is parsed as a unary minus expression
+            lit = literal_of(getattr(s, attr))
             got = items.get(attr)
             if lit is None:
                 if got is not None:
-                    col.violation(f"{case}:{cid}:{attr}", f"component {n}: {attr} item present but the flat variable has none", {"model_text": text})
+                    col.violation(f"{case}:{cid}:{attr}", f"component {n}: {attr} item ({got.get('value')!r}) present but the flat variable has no literal {attr}", rp)
                 continue
             if got is None:
-                col.violation(f"{case}:{cid}:{attr}", f"component {n}: {attr} = {lit!r} missing in the XML", {"model_text": text})
+                col.violation(f"{case}:{cid}:{attr}", f"component {n}: {attr} = {lit!r} missing in the XML", rp)
                 continue
-            try:
-                gv = xml_to_ast(got).value
-            except Exception:
-                gv = got.get("value")
-            same = (gv == lit) if isinstance(lit, bool) or isinstance(gv, bool) else (float(gv) == float(lit) if not isinstance(gv, str) else False)
-            if not same:
-                col.violation(f"{case}:{cid}:{attr}", f"component {n}: {attr} is {got.get('value')!r} in the XML, {lit!r} in the flat model", {"model_text": text})
+            if not same_literal(got, lit):
+                col.violation(f"{case}:{cid}:{attr}", f"component {n}: {attr} is {got.get('value')!r} in the XML, {lit!r} in the flat model", rp)
         fx = s.fixed.value if isinstance(s.fixed, ast.Primary) else None
         if bool(fx) != ("fixed" in items and items["fixed"].tag == "true"):
-            col.violation(f"{case}:{cid}:fixed", f"component {n}: fixed = {fx} in the flat model, XML item {'present' if 'fixed' in items else 'absent'}", {"model_text": text})
-    eqs = cls.find("equation")
-    xeqs = list(eqs) if eqs is not None else []
-    if len(xeqs) != len(fc.equations):
-        col.violation(case + ":n-equations", f"{len(xeqs)} equation elements for {len(fc.equations)} flat equations", {"model_text": text})
+            col.violation(f"{case}:{cid}:fixed", f"component {n}: fixed = {fx} in the flat model, XML item {'present' if 'fixed' in items else 'absent'}", rp)
+    secs = klass.findall("equation")
+    if len(secs) > 1:
+        col.violation(case + ":equation-sections", f"{len(secs)} equation sections in one class", rp)
         return
-    ref = Ref(flat, "M")
-    for k, (xe, fe) in enumerate(zip(xeqs, fc.equations)):
-        ecase = per.get(k, f"eq{k}")
-        if xe.tag != "equal" or len(xe) != 2:
-            col.violation(f"{case}:{ecase}:shape", f"equation {k}: element <{xe.tag}> with {len(xe)} children, expected <equal> with 2", {"model_text": text})
-            continue
-        try:
+    xeqs = list(secs[0]) if secs else []
+    if len(xeqs) != len(fc.equations):
+        col.violation(case + ":n-equations", f"{len(xeqs)} equation elements for {len(fc.equations)} flat equations ({len(fc.initial_equations)} flat initial equations)", rp)
+        return
+    ref = XRef(flat, cls)
+
+    def meaning(ecase, k, what, xa, fa):
+        """z3: the XML expression and the flat expression are the same function of the variables."""
+        if isinstance(fa, ast.Primary) and isinstance(fa.value, str):
+            return  # string literal (assert message): compared concretely by shape()
+        zx, zf = ref.ev(xa), ref.ev(fa)
+        r, m = equiv.check(col, list(ref.div.nonzero()) + [zx != zf], 10000)
+        if r == "sat":
+            col.violation(f"{case}:{ecase}:meaning", f"equation {k} {what}: the XML expression evaluates differently from the flat equation", rp)
+        elif r == "unknown":
+            col.note_inconclusive(f"{case}:{ecase}: solver unknown")
+
+    def compare(ecase, k, xe, fe):
+        """One XML equation element against one flat equation (recursively for the body of a when-equation).
+        Returns False after reporting a structural difference."""
+        if isinstance(fe, ast.Equation):
+            if xe.tag != "equal" or len(xe) != 2:
+                col.violation(f"{case}:{ecase}:shape", f"equation {k}: element <{xe.tag}> with {len(xe)} children, expected <equal> with 2", rp)
+                return False
             xl, xr = xml_to_ast(xe[0]), xml_to_ast(xe[1])
             if (shape(xl), shape(xr)) != (shape(fe.left), shape(fe.right)):
-                col.violation(f"{case}:{ecase}:structure", f"equation {k}: XML tree {shape(xr)} differs from the flat equation {shape(fe.right)} operator for operator", {"model_text": text})
-                continue
-            for side, xa, fa in (("lhs", xl, fe.left), ("rhs", xr, fe.right)):
-                zx, zf = ref.ev(xa), ref.ev(fa)
-                r, m = equiv.check(col, list(ref.div.nonzero()) + [zx != zf], 10000)
-                if r == "sat":
-                    col.violation(f"{case}:{ecase}:meaning", f"equation {k} {side}: the XML expression evaluates differently from the flat equation", {"model_text": text})
-                elif r == "unknown":
-                    col.note_inconclusive(f"{case}:{ecase}: solver unknown")
+                side = (shape(xr), shape(fe.right)) if shape(xr) != shape(fe.right) else (shape(xl), shape(fe.left))
+                col.violation(f"{case}:{ecase}:structure", f"equation {k}: XML tree {side[0]} differs from the flat equation {side[1]} operator for operator", rp)
+                return False
+            meaning(ecase, k, "lhs", xl, fe.left)
+            meaning(ecase, k, "rhs", xr, fe.right)
+            return True
+        if isinstance(fe, ast.Function):  # equation-level call: reinit(v, e), assert(c, "message")
+            if xe.tag != "apply":
+                col.violation(f"{case}:{ecase}:shape", f"equation {k}: element <{xe.tag}>, expected <apply> for the call of {fe.name}", rp)
+                return False
+            xa = xml_to_ast(xe)
+            want = ("op", fe.name, tuple(shape(a) for a in fe.arguments))
+            if shape(xa) != want:
+                col.violation(f"{case}:{ecase}:structure", f"equation {k}: XML tree {shape(xa)} differs from the flat equation {want} operator for operator", rp)
+                return False
+            for i, (x1, f1) in enumerate(zip(xa.operands, fe.arguments)):
+                meaning(ecase, k, f"{fe.name} argument {i + 1}", x1, f1)
+            return True
+        if isinstance(fe, ast.WhenEquation):
+            if xe.tag != "when":
+                col.violation(f"{case}:{ecase}:shape", f"equation {k}: element <{xe.tag}>, expected <when>", rp)
+                return False
+            conds, thens = xe.findall("cond"), xe.findall("then")
+            if len(conds) != len(fe.conditions) or len(thens) != len(fe.blocks) or len(xe) != len(conds) + len(thens):
+                col.violation(f"{case}:{ecase}:when-branches", f"equation {k}: <when> has {len(conds)} <cond> and {len(thens)} <then> among {len(xe)} children, "
+                              f"the flat when-equation has {len(fe.conditions)} conditions and {len(fe.blocks)} branches (when / elsewhen)", rp)
+                return False
+            ok = True
+            for bi, (ce, te, fcnd, fblk) in enumerate(zip(conds, thens, fe.conditions, fe.blocks)):
+                if len(ce) != 1 or shape(xml_to_ast(ce[0])) != shape(fcnd):
+                    col.violation(f"{case}:{ecase}:structure", f"equation {k}: condition {bi + 1} of the XML when-equation {[shape(xml_to_ast(x)) for x in ce]} "
+                                  f"differs from the flat condition {shape(fcnd)} operator for operator", rp)
+                    ok = False
+                    continue
+                meaning(ecase, k, f"when-condition {bi + 1}", xml_to_ast(ce[0]), fcnd)
+                if len(te) != len(fblk):
+                    col.violation(f"{case}:{ecase}:when-body", f"equation {k}: branch {bi + 1} of the XML when-equation has {len(te)} elements for {len(fblk)} flat equations", rp)
+                    ok = False
+                    continue
+                for x1, f1 in zip(te, fblk):
+                    ok = compare(ecase, k, x1, f1) and ok
+                    col.bump("when_body_equations_compared")
+            col.bump("when_equations_compared")
+            return ok
+        raise EncodingGap("flat equation " + type(fe).__name__)
+
+    for k, (xe, fe) in enumerate(zip(xeqs, fc.equations)):
+        ecase = per.get(k, f"eq{k}")
+        if isinstance(fe, ast.Equation) and isinstance(fe.left, ast.Symbol) and fe.left.name in per:
+            ecase = per[fe.left.name] + ":declaration-equation"
+        try:
+            compare(ecase, k, xe, fe)
         except EncodingGap as g:
             col.append("encoding_gaps", f"{case}:{ecase}: {g}")
     col.bump("equations_compared", len(xeqs))
     col.bump("components_compared", len(comps))
+    col.bump("initial_equations_in_flat_models", len(fc.initial_equations))
 
 
 def work(item):
     kind, payload = item
     col = Collector()
     try:
-        if kind == "expr":
+        if kind in ("expr", "bexpr"):
             per = {k: f"expr:{E.pr(t)}" for k, t in enumerate(payload)}
-            check_text(col, "expr", expr_model(payload), per)
+            check_text(col, "expr", expr_model(payload, boolean=(kind == "bexpr")), per)
             col.sample({"equation": "y0 = " + E.pr(payload[0])}, 1)
-        else:
+        elif kind in ("sym", "symx"):
             per = {f"s{k}": cid for k, (cid, _) in enumerate(payload)}
-            check_text(col, "sym", sym_model(payload), per)
+            check_text(col, "sym", sym_model(payload, SYM_HEADER if kind == "symx" else ""), per)
             col.sample({"declaration": payload[0][1]}, 1)
+        else:
+            for cid, text, cls, per in payload:
+                check_text(col, cid, text, per, cls)
+                col.bump("programs")
+            col.bump("programs", -1)
+            col.sample({"model": payload[0][0]}, 1)
         col.bump("programs")
     except Exception:
         col.harness_error(f"{kind}: " + traceback.format_exc()[-1200:])
     return col
 
 
+WARMUP = FUNCS + _class("W", BALL_DECL + ["Real a(start = -1.5, fixed = true) = 2 * g;", "Boolean q = not b or h >= 1 and v <> 2;", "parameter String s = \"x\";"],
+                        [("initial equation", INIT2), ("equation", BALL_EQS + [_when("h < 0", [COUNT, BOUNCE]), "e + f3(h, 1, v) / 2 ^ g = -sin(time) * 1e-3;"])])
+
+
 def main():
     a = std_args(PROP)
     if a.replay:
         c = Collector()
-        check_text(c, "replay", json.load(open(a.replay))["replay"]["model_text"])
+        r = json.load(open(a.replay))["replay"]
+        check_text(c, "replay", r["model_text"], None, r.get("class", "M"))
         print(c.violations[:3])
         return 1 if c.violations else 0
     rep = Report(PROP, a.tier, "translation_validation", a.seed)
-    trs = trees(a.tier)
-    syms = symbol_models(a.tier)
-    items = [("expr", trs[i:i + BATCH]) for i in range(0, len(trs), BATCH)] + [("sym", syms[i:i + BATCH]) for i in range(0, len(syms), BATCH)]
-    for col in run_parallel(work, items, a.jobs):
+    trs, ctrs, btrs = trees(a.tier), call_trees(a.tier), bool_trees(a.tier)
+    syms, symx = symbol_models(a.tier), symbol_cross(a.tier)
+    structs = struct_models(a.tier)
+
+    def chunks(kind, xs, n):
+        return [(kind, xs[i:i + n]) for i in range(0, len(xs), n)]
+    items = (chunks("struct", structs, STRUCT_BATCH) + chunks("symx", symx, SYM_BATCH) + chunks("expr", trs, BATCH) + chunks("expr", ctrs, BATCH)
+             + chunks("bexpr", btrs, BATCH) + chunks("sym", syms, BATCH))
+    try:
+        # the ANTLR parser builds its prediction cache on first use (seconds): do that once, before the workers are forked
+        pipeline.parse_text(WARMUP)
+    except Exception:
+        pass
+    # a work item costs ~0.3 s once the parser is warm, a forked worker several seconds before its first result (copy-on-write of
+    # the warmed-up heap): worker processes only pay off for many items per worker
+    for col in run_parallel(work, items, min(a.jobs, 1 + len(items) // 120)):
         rep.merge(col)
     # canary: a wrong XML tree must be refuted by the meaning comparison
     c = Collector()
     from pymoca import ast
     flat = pipeline.flat_reference(expr_model([E.Bn("-", E.V("a"), E.V("b"))]), "M")
-    ref = Ref(flat, "M")
+    ref = XRef(flat, "M")
     r, _ = equiv.check(c, [ref.ev(ast.Expression(operator="-", operands=[ast.ComponentRef(name="b"), ast.ComponentRef(name="a")])) != ref.ev(flat.classes["M"].equations[0].right)])
     rep.coverage["canary_detected"] = r == "sat"
     if r != "sat":
         rep.harness_error("canary: swapped operands not detected")
+    # canary for the opaque operators: pre(a) against pre(b) must be refuted as well
+    r2, _ = equiv.check(c, [ref.ev(ast.Expression(operator="pre", operands=[ast.ComponentRef(name="a")])) != ref.ev(ast.Expression(operator="pre", operands=[ast.ComponentRef(name="b")]))])
+    rep.coverage["canary_opaque_operator_detected"] = r2 == "sat"
+    if r2 != "sat":
+        rep.harness_error("canary: pre(a) vs pre(b) not detected")
     cov = rep.coverage
     cov["disagreements_checked"] = rep.queries.get("sat", 0)
     cov["functions_encoded"] = ["backends.xml.generator.generate / XmlGenerator (real code; output parsed back and translated to z3 through ast2z3)"]
-    cov["bounds"] = (f"{len(trs)} expression trees (all ordered operator pairs of + - * / ^ in both nestings, unary +/-, sin/cos/tan/der/time, n-ary calls, equal sibling operands, "
-                     "numeric literals needing many digits or exponents) and {0} variable declarations (Real/Integer/Boolean x continuous/discrete/parameter/constant x value/start/fixed, "
-                     "long literals)".format(len(syms)))
-    rep.assumptions += ["the flat model is a fresh parse + tree.flatten of the same text", "meaning comparison uses the reference semantics vk/smt/ast2z3.py; elementary functions uninterpreted",
-                        "start/value given as non-literal expressions are outside the backend's subset"]
+    cov["bounds"] = (f"{len(trs)} arithmetic expression trees (all ordered operator pairs of + - * / ^ in both nestings, unary +/-, sin/cos/tan/der/time, n-ary calls, equal sibling operands, "
+                     f"numeric literals needing many digits or exponents); {len(ctrs)} call trees (user functions of 1-3 arguments, smooth/noEvent/delay/pre, equal sibling operands, nested calls); "
+                     f"{len(btrs)} Boolean trees (6 relational operators, not/and/or in both nestings, Boolean literals, pre/edge); "
+                     f"{len(syms)} + {len(symx)} variable declarations (Real/Integer/Boolean/String x continuous/discrete/parameter/constant x start in none/literal/negative literal/reference/expression "
+                     "x value in the same kinds x fixed absent/true/false, modifier order, min/max/nominal present, long literals); "
+                     f"{len(structs)} whole models: {len(SECTION_LAYOUTS)} layouts of equation / initial equation sections x {len(WHEN_FORMS)} when-equation forms (equations and reinit in the body, "
+                     "several when-equations, position among the equations, compound / Boolean / sample conditions, equation-level assert, elsewhen) x instantiation as top-level model / sub-model "
+                     "once / twice with modifications / base class / class in a package, plus sub-models whose parameter values are modified between literal and expression; "
+                     "every model generated twice from the same parsed tree")
+    rep.assumptions += ["the flat model is a fresh parse + tree.flatten of the same text", "meaning comparison uses the reference semantics vk/smt/ast2z3.py; elementary functions and "
+                        "pre/edge/sample/noEvent/smooth/delay uninterpreted",
+                        "start/value given as non-literal expressions are not exported by the backend: the check requires that they leave no item",
+                        "if-expressions, if/for-equations and arrays are outside the backend's subset (generate() raises or drops subscripts) and are not enumerated"]
     if not cov.get("programs"):
         rep.harness_error("no program was compared")
     return rep.finish()
